@@ -18,11 +18,20 @@ EXPLANATION = ("G1 on every path of the frame decoder, `Ok(None)` (need more byt
                "configuration and Decoder::decode is the frame decoder applied to the caller's buffer; G7 (gssapi configuration, where the "
                "codec carries the SASL token layer) every error path of Decoder::decode is the frame decoder's own answer or the failure "
                "of the unwrap primitive - a shortfall of buffered bytes is never an error - and a literal Ok(None) path has not touched "
-               "the buffer. Not decided: tokio-util's Framed re-invoking decode correctly; frame sizes beyond the read buffer as a runtime "
+               "the buffer; G8 between the socket and the frame decoder nobody but the frame decoder removes octets (rules/readbuf.py): every site of the "
+               "workspace that touches the framed transport - a call whose resolved callee is one of tokio_util's Framed / FramedRead / FramedParts, or that is "
+               "handed a value of the transport's type, and every assignment to a place of that type - is found and classified by what it gives access to "
+               "(constructor with empty buffers; io / codec / write side / shared view of the read buffer; the transport polled as Stream / Sink; read_buffer_mut; "
+               "taken apart or replaced), an accessor outside those classes fails closed; what is done with the `&mut BytesMut` that Framed::read_buffer_mut hands "
+               "out is read off the enumerated paths of the body (for the driver loop: of the select! arm) - looking at it or reserving capacity is harmless, "
+               "clear / truncate / advance / split_to / split_off / resize / mem::take / an assignment through it remove or change read-ahead octets and are accepted "
+               "only for an amount that is literally zero or on a path whose condition says the buffer is empty at that moment, with no use of the transport in between; "
+               "the transport is taken apart or replaced only in the TLS upgrade of the TCP constructor (listed as accepted: what the protected transport is built from "
+               "is judged by C17 W3 / C01 R16); the io underneath is read only through the transport enum's own AsyncRead impl. Not decided: tokio-util's Framed re-invoking decode correctly; frame sizes beyond the read buffer as a runtime "
                "quantity; what becomes of plaintext left over after unwrapping a SASL token when further tokens are already buffered, and of "
                "an LDAP message that straddles two tokens (read off the code as lossy, but not demonstrable here without a Kerberos peer, "
                "so not claimed either way).")
-TRUSTED = ['tokio_util::codec::Framed', 'nom streaming parsers report Incomplete on short input', 'bytes::BytesMut::advance']
+TRUSTED = ['tokio_util::codec::Framed (its read loop hands the read buffer to Decoder::decode and to nobody else; accessor semantics as tabulated in rules/readbuf.py after tokio-util 0.7)', 'nom streaming parsers report Incomplete on short input', 'bytes::BytesMut::advance']
 UNDECIDED = ['Framed\'s read loop (trusted)', 'sizes beyond the read buffer (runtime quantity)']
 ASSUMPTIONS = []
 SHARED = [('C07', ('B2.reader',), 'G5.length-reader'), ('C07', ('B7.', 'B4.remainder'), 'G6.tlv-parser')]      # the frame boundary is where the length reader says it is, however the bytes arrive
@@ -143,6 +152,13 @@ def run(ctx):
     P = hirq.Body(f, f.body('lber::parse::Parser::parse'))
     ctx.analysed['bodies'].add(P.path)
     wrapper.check_parser_entry(ctx, f, P, 'lber::parse::parse_tag', 'G3')
+
+    # ---- G8 between the socket and the frame decoder nobody but the frame decoder removes octets (rules/readbuf.py): the census of
+    # every site that touches the framed transport; what is done through Framed::read_buffer_mut on the enumerated paths; the
+    # re-framing of the TLS upgrade is judged by C17 W3 / C01 R16 (what the new transport is built from) and only listed here
+    import readbuf
+    from props import C17
+    readbuf.check(ctx, f, 'G8', upgrade_site=C17.NT)
 
     # ---- G4 no cross-call state
     codec = f.items.get('ldap3::protocol::LdapCodec')
